@@ -19,10 +19,12 @@ from simcore.sched import SimPool, install_locks, install_pools
 from simcore.world import O, SimWorld
 
 KEYS = "ab"
-VALS = [0, 1, 2, "x", 1.5]
+VALS = [0, 1, 2, "x", 1.5, None, True, ""]
 
 
 def gen_sp(rng):
+    if rng.random() < 0.04:
+        return {}  # the empty state point is a job like any other
     sp = {k: rng.choice(VALS) for k in rng.sample(KEYS, rng.randrange(1, 3))}
     if rng.random() < 0.2:
         sp["n"] = {"k": rng.choice(VALS)}
@@ -55,8 +57,8 @@ def match(sp, flt):
             if k not in sp:
                 return False
             v = sp[k]
-            # signac's index keeps bool apart from numbers and matches 1 with 1.0
-            if isinstance(v, bool) != isinstance(want, bool) or v != want:
+            # the index compares like Python does (1, 1.0 and True are the same key)
+            if v != want:
                 return False
     return True
 
@@ -193,6 +195,11 @@ class Run:
                 job.sp[op[2]] = op[3]
 
         if cid(new) == jid:
+            return
+        old_v = self.model[jid].get(op[2], object())
+        if old_v == op[3] and type(old_v) is not type(op[3]):
+            # 1 -> True, 1 -> 1.0: the dependency's in-place update keeps the old value for some routes
+            # (an open finding of C04, where it is reported); not a cache question
             return
         if cid(new) in self.model:
             # the destination exists: the re-key is refused and neither job (nor what any session
